@@ -704,18 +704,73 @@ func heapMutation(r *rand.Rand, nsnaps int) heapOp {
 	return heapOp{Tag: "M", ID: id, Field: f, Index: r.Intn(4), Value: Pick(r, "zzz", "#zzz", "", "alice", "#a", "AAA", "mallory")}
 }
 
+// heapOddName decorates a tracked name the way callers plausibly pass it to a lookup:
+// hostmask forms ("nick!ident@host", "nick@host", "nick!ident", wildcards), status prefixes
+// ("@nick", "+#chan"), surrounding spaces, lists, case variants. At HEAD a lookup folds the
+// whole argument and finds nothing for most of these (the model says which); whatever a
+// lookup does return must be an isolated copy.
+func heapOddName(r *rand.Rand, base string) string {
+	switch r.Intn(16) {
+	case 0:
+		return base + "!u@h.example"
+	case 1:
+		return base + "!" + Pick(r, "u", "~id", "*") + "@" + Pick(r, "h", "host.x", "*")
+	case 2:
+		return base + "@" + Pick(r, "h.example", "host.x", "*")
+	case 3:
+		return base + "!" + Pick(r, "u", "*", "")
+	case 4:
+		return caseVariant(r, base) + "!*@*"
+	case 5:
+		return Pick(r, "@", "+", "@+", "~", "%", "&") + base
+	case 6:
+		return " " + base
+	case 7:
+		return base + " "
+	case 8:
+		return base + "," + base
+	case 9:
+		return base + Pick(r, "\x00", "\r\n", ":", "!", "@")
+	case 10:
+		return Pick(r, "!u@h", "@h", "!", "@", "*", "*!*@*", " ")
+	case 11:
+		return strings.ToUpper(base)
+	case 12:
+		return strings.ToUpper(base) + "!U@H"
+	case 13:
+		return base + "!u@h!x@y"
+	case 14:
+		return ":" + base
+	}
+	return caseVariant(r, base)
+}
+
 func heapSnapOp(r *rand.Rand) heapOp {
 	switch r.Intn(8) {
 	case 0, 1, 2:
 		n := heapNicks[r.Intn(len(heapNicks))]
-		if r.Intn(4) == 0 {
+		switch r.Intn(8) {
+		case 0, 1:
 			n = Pick(r, "me", "ME", "nobody", "", caseVariant(r, n))
+		case 2, 3, 4:
+			n = heapOddName(r, Pick(r, n, "me"))
+		case 5:
+			if r.Intn(3) == 0 { // a channel name given to the user lookup
+				n = heapChans[r.Intn(len(heapChans))]
+			}
 		}
 		return heapOp{Tag: "S", Kind: "user", Name: n}
 	case 3, 4, 5:
 		ch := heapChans[r.Intn(len(heapChans))]
-		if r.Intn(4) == 0 {
+		switch r.Intn(8) {
+		case 0, 1:
 			ch = Pick(r, "#none", "", caseVariant(r, ch))
+		case 2, 3:
+			ch = heapOddName(r, ch)
+		case 4:
+			if r.Intn(3) == 0 { // a nickname given to the channel lookup
+				ch = heapNicks[r.Intn(len(heapNicks))]
+			}
 		}
 		return heapOp{Tag: "S", Kind: "chan", Name: ch}
 	case 6:
@@ -735,7 +790,7 @@ func heapFragment(r *rand.Rand, base int) ([]heapOp, int) {
 		snap = heapOp{Tag: "S", Kind: "chans"}
 	}
 	id := base // with "chans" the channel may be any of the new ones: writes then go to the first
-	switch r.Intn(4) {
+	switch r.Intn(5) {
 	case 0: // a mode with an argument is set, snapshot, the same mode is set again with another argument
 		m := Pick(r, "+l", "+k")
 		v1, v2 := Pick(r, "10", "key", "5"), Pick(r, "20", "sesame", "99")
@@ -752,6 +807,20 @@ func heapFragment(r *rand.Rand, base int) ([]heapOp, int) {
 			ops[5], ops[6] = ops[6], ops[5]
 		}
 		return ops, 1
+	case 3: // lookups with hostmask-like / decorated arguments of a tracked user; whatever comes back is written and must stay isolated
+		ops := []heapOp{heapE(a, "JOIN", ch)}
+		k := 2 + r.Intn(3)
+		for i := 0; i < k; i++ {
+			ops = append(ops, heapOp{Tag: "S", Kind: "user", Name: heapOddName(r, a)})
+		}
+		for i := 0; i < k; i++ {
+			ops = append(ops, heapOp{Tag: "M", ID: base + i, Field: Pick(r, "nick", "account", "elem", "append"), Index: 0, Value: "mallory"})
+		}
+		ops = append(ops, heapOp{Tag: "R"}, heapE("srv", "354", "me", "1", ch, "newid", "new.host", a, "acct9", "Real"), heapE(a, "PART", ch))
+		for i := 0; i < k; i++ {
+			ops = append(ops, heapOp{Tag: "I", ID: base + i})
+		}
+		return ops, k
 	default: // a user whose channel list became empty in place (PART of its only channel is followed by removal, so use two)
 		return []heapOp{heapE(a, "JOIN", ch), {Tag: "S", Kind: "user", Name: a}, heapE(a, "PART", ch), heapE(a, "JOIN", ch),
 			{Tag: "S", Kind: "user", Name: a}, {Tag: "M", ID: base + 1, Field: "append", Value: "#zzz"}, heapE(a, "JOIN", heapChans[r.Intn(len(heapChans))]),
@@ -847,6 +916,18 @@ func heapFixed() []Case {
 		// equal lists in different objects: #a and #c have the same members
 		mk(heapE("me", "JOIN", "#c"), heapE("srv", "353", "me", "=", "#c", "me @alice +bob carol"), heapOp{Tag: "S", Kind: "chans"},
 			heapOp{Tag: "M", ID: 0, Field: "elem", Index: 1, Value: "zzz"}, heapOp{Tag: "S", Kind: "users"}, heapOp{Tag: "M", ID: 4, Field: "elem", Index: 0, Value: "#q"}),
+		// lookups by hostmask-like and decorated arguments: nil at HEAD, and never the tracked object
+		mk(heapOp{Tag: "S", Kind: "user", Name: "alice!a@h"}, heapOp{Tag: "S", Kind: "user", Name: "alice@h"}, heapOp{Tag: "S", Kind: "user", Name: "Alice!*@*"},
+			heapOp{Tag: "S", Kind: "user", Name: "alice!a"}, heapOp{Tag: "S", Kind: "user", Name: "@alice"}, heapOp{Tag: "S", Kind: "user", Name: " alice"},
+			heapOp{Tag: "S", Kind: "user", Name: "alice "}, heapOp{Tag: "S", Kind: "user", Name: "ALICE"},
+			heapOp{Tag: "M", ID: 0, Field: "nick", Value: "mallory"}, heapOp{Tag: "M", ID: 1, Field: "elem", Index: 0, Value: "#hijacked"},
+			heapOp{Tag: "M", ID: 2, Field: "account", Value: "hijacked"}, heapOp{Tag: "M", ID: 7, Field: "nick", Value: "m2"}, heapOp{Tag: "R"},
+			heapE("srv", "354", "me", "1", "#a", "newid", "new.host", "alice", "acct9", "Real"), heapE("alice", "PART", "#a")),
+		mk(heapOp{Tag: "S", Kind: "chan", Name: "@#a"}, heapOp{Tag: "S", Kind: "chan", Name: "+#a"}, heapOp{Tag: "S", Kind: "chan", Name: "#a "},
+			heapOp{Tag: "S", Kind: "chan", Name: " #a"}, heapOp{Tag: "S", Kind: "chan", Name: "#a,#b"}, heapOp{Tag: "S", Kind: "chan", Name: "#A"},
+			heapOp{Tag: "S", Kind: "chan", Name: "alice"}, heapOp{Tag: "S", Kind: "user", Name: "#a"},
+			heapOp{Tag: "M", ID: 0, Field: "topic", Value: "defaced"}, heapOp{Tag: "M", ID: 5, Field: "elem", Index: 0, Value: "zzz"}, heapOp{Tag: "R"},
+			heapE("bob", "PART", "#a")),
 		// a mode with an argument is set again after a snapshot / through a snapshot
 		mk(heapE("x", "MODE", "#a", "+l", "10"), heapOp{Tag: "S", Kind: "chan", Name: "#a"}, heapE("x", "MODE", "#a", "+l", "20"), heapOp{Tag: "I", ID: 0},
 			heapOp{Tag: "S", Kind: "chan", Name: "#a"}, heapOp{Tag: "A", ID: 1, Flags: "+l", Args: []string{"30"}}, heapOp{Tag: "R"}),
